@@ -885,8 +885,15 @@ def hostile_case(case, r, idx):
     if bystander:
         steps.append({"do": "connect", "n": 2})
         steps.append({"do": "app", "n": 2, "c": 0, "streams": [{"dir": 0, "size": 4000, "chunk": 1000, "finish": True}]})
-    steps += [{"do": "run_until", "what": "connected", "max_us": 5000000}, {"do": "run", "us": 400000},
-              {"do": "mitm", "dir": "c2s" if v == "s" else "s2c", "nth_short": 0, "mode": "append", "hex": fb.hex()},
+    steps += [{"do": "run_until", "what": "connected", "max_us": 5000000}, {"do": "run", "us": 400000}]
+    if k in ("stream", "reset") and case["idc"] == "peer_bidi_last_allowed" and not conn_aim and r.random() < 0.5:
+        # the limit must be that of the stream itself, not one inherited from an earlier stream whose
+        # bookkeeping is recycled: first an honest transfer of three windows on the peer's first stream
+        steps += [{"do": "app", "n": attacker_n, "c": 0, "read_max": 1 << 20, "ordered": True,
+                   "streams": [{"dir": 0, "size": 3 * sw, "chunk": 1000, "finish": True}]},
+                  {"do": "run_until", "what": "apps", "max_us": 5000000}, {"do": "run", "us": 200000}]
+        d["warm"] = True
+    steps += [{"do": "mitm", "dir": "c2s" if v == "s" else "s2c", "nth_short": 0, "mode": "append", "hex": fb.hex()},
               {"do": "op", "n": attacker_n, "c": 0, "op": {"op": "ping"}},
               {"do": "run", "us": 300000}]
     # the victim application tries to read whatever the hostile frame may have delivered
@@ -905,12 +912,23 @@ def hostile_flood(r, idx):
     cfg = base_cfg(r)
     cfg["server"] = {"idle_ms": 20000}
     cfg["client"] = {"idle_ms": 20000}
-    kind = r.choice(["pathchal", "newcid", "retirecid", "ping", "maxdata", "stream1", "ackdup"])
+    kind = r.choice(["pathchal", "newcid", "newcid_rpt", "retirecid", "ping", "maxdata", "stream1", "ackdup", "ackbad"])
     if kind == "pathchal":
         fb = b"".join(bytes([0x1a]) + bytes(r.randrange(256) for _ in range(8)) for _ in range(40))
     elif kind == "newcid":
         fb = b"".join(bytes([0x18]) + _var(s) + _var(0) + bytes([8]) + bytes(r.randrange(256) for _ in range(8))
                       + bytes(r.randrange(256) for _ in range(16)) for s in range(5, 9))
+    elif kind == "newcid_rpt":
+        # every frame retires everything issued before it: the list of pending retirements must stay bounded
+        first = r.choice([20, 30, 40])
+        fb = b"".join(bytes([0x18]) + _var(s) + _var(s) + bytes([8]) + bytes(r.randrange(256) for _ in range(8))
+                      + bytes(r.randrange(256) for _ in range(16)) for s in range(first, first + 38))
+    elif kind == "ackbad":
+        # ACK frames whose ranges run below zero, overlap, or start above the largest acknowledged
+        def ack(largest, first, more):
+            return bytes([0x02]) + _var(largest) + _var(0) + _var(len(more)) + _var(first) + b"".join(_var(g) + _var(l) for g, l in more)
+        fb = r.choice([ack(1, 0, [(0, 0)]), ack(3, 0, [(2, 0)]), ack(2, 3, []), ack(0, 0, [(0, 0)]), ack(5, 1, [(1, 5)]),
+                       ack(3, 1, [(0, 0), (0, 0)]), ack(1, 1, [(0, 0)]), ack(2, 0, [(0, 1)]), ack(4, 0, [(3, 0)])])
     elif kind == "retirecid":
         fb = b"".join(bytes([0x19]) + _var(s) for s in range(1, 4))
     elif kind == "ping":
